@@ -2,6 +2,7 @@ SPECIFICATION Spec
 CONSTANTS
   CatchReceiveError = TRUE
   ResetOnAccept = TRUE
+  ResetOnEof = FALSE
   CatchSendError = TRUE
   MaxConns = 2
   MaxEdits = 1
